@@ -34,7 +34,7 @@ type Spec struct {
 func opOf(name string) (treefs.Op, bool) {
 	switch name {
 	case "write-f-v1":
-		return treefs.Op{Kind: "WriteFile", P: "d/f", Data: "v1"}, true
+		return treefs.Op{Kind: "WriteFile", P: "d/f", Data: "v1-111"}, true
 	case "write-f-v2":
 		return treefs.Op{Kind: "WriteFile", P: "d/f", Data: "v2-longer"}, true
 	case "read-f":
@@ -100,7 +100,7 @@ func build(sp Spec, o *obs) func() {
 		*o = obs{}
 		fs, _ := memfs.NewFilespace()
 		if sp.Init == "df" || sp.Init == "d3" {
-			fs.WriteFile("d/f", []byte("v0"), 0644)
+			fs.WriteFile("d/f", []byte("v0-000"), 0644)
 		}
 		if sp.Init == "d3" { // three files stored in this order in one directory
 			fs.WriteFile("d/g", []byte("g"), 0644)
@@ -259,7 +259,7 @@ func (e event) init() *treefs.Node {
 	t := treefs.NewDir()
 	if e.op.P == "df" || e.op.P == "d3" {
 		d := treefs.NewDir()
-		d.Kids["f"] = &treefs.Node{Data: "v0"}
+		d.Kids["f"] = &treefs.Node{Data: "v0-000"}
 		if e.op.P == "d3" {
 			d.Kids["g"] = &treefs.Node{Data: "g"}
 			d.Kids["h"] = &treefs.Node{Data: "na"}
@@ -399,7 +399,7 @@ func weakOK(o *obs) bool {
 
 func completeValue(v string) bool {
 	switch v {
-	case "v0", "v1", "v2-longer", "v3av3b", "g", "na", "nb":
+	case "v0-000", "v1-111", "v2-longer", "v3av3b", "g", "na", "nb":
 		return true
 	}
 	return false
